@@ -78,6 +78,7 @@ fn judge(c: &[u64], a: &[i128]) -> (Option<&'static str>, bool) {
             }
             let has_err = ERR.contains(v);
             let nt = has_err || DIVERGING.contains(v) || *v < 32;
+            if a == [-78] { return (Some("the gate installed over an existing handler differs from the gate the same installation writes into a fresh table (the entry is not exactly the stub)"), nt); }
             if a.len() < 9 { return (Some("entering the installed stub did not reach the general handler"), nt); }
             if a[0] != 1 { return (Some("the general handler must be called exactly once"), nt); }
             if a[1] != *v as i128 { return (Some("the general handler must be called with the index of the entered vector"), nt); }
